@@ -11,7 +11,7 @@ import (
 
 func init() {
 	families["C17"] = famC17
-	rules["C17"] = "tag soup built from a pool of start/end tags (block, inline, table, list, void, raw-text, template, select, svg and math foreign content, prefixed names), attributes (duplicates, xmlns, xmlns:xlink, xlink:href, xml:lang, colons, empty values), text, entities, comments, " +
+	rules["C17"] = "tag soup built from a pool of start/end tags (block, inline, table, list, void, raw-text, template, select, svg and math foreign content, prefixed names), attributes (duplicates, xmlns, xmlns:xlink, xlink:href, xml:lang, colons also at the start of a name, empty values, five to a dozen attributes on one element), text, entities, comments, " +
 		"misnested and unclosed tags, content after </body> and </html>, with and without a leading doctype; html.Parse's DOM is dumped by an independent recursive walk and handed to the walk model; observable: the full cursor tree from xsel.ReadHtml " +
 		"(names, attributes, text, comments, every Pos()) or the error; non-trivial: the DOM has >= 6 element nodes; distinct by bytes"
 	replayers["html"] = func(rn *Runner, rp *Replay) (string, string, bool) {
@@ -93,7 +93,8 @@ var htmlTags = []string{"div", "p", "span", "a", "b", "i", "ul", "li", "table", 
 	"template", "svg", "math", "mi", "rect", "svg:rect", "a:b:c", "x-custom", "title", "head", "body", "html", "pre", "button", "nobr", "dl", "dd", "dt", "caption", "colgroup", "frameset", "foreignObject", "desc"}
 var htmlVoid = []string{"br", "img", "input", "hr", "meta", "link", "col", "wbr"}
 var htmlAttrs = []string{`id="x"`, `class="a b"`, `id="dup" id="dup2"`, `xmlns="http://www.w3.org/2000/svg"`, `xmlns:xlink="http://www.w3.org/1999/xlink"`, `xlink:href="#a"`, `xml:lang="en"`,
-	`data-x='1'`, `disabled`, `a:b="c"`, `xmlns:foo="urn:foo"`, `href=/x/y`, `title="&amp;&lt;"`, `XMLNS="u"`, `x:xmlns="q"`, `lang=de`, `definitionurl="u"`, `viewbox="0 0 1 1"`}
+	`data-x='1'`, `disabled`, `a:b="c"`, `xmlns:foo="urn:foo"`, `href=/x/y`, `title="&amp;&lt;"`, `XMLNS="u"`, `x:xmlns="q"`, `lang=de`, `definitionurl="u"`, `viewbox="0 0 1 1"`,
+	`:title="msg"`, `:x`, `::y="1"`, `:="c"`, `k1=1 k2=2 k3=3 k4=4 k5=5`, `m1 m2 m3 m4 m5 m6 m7 m8 m9`, `rel="noopener"`}
 var htmlTexts = []string{"text", " ", "a &amp; b", "&lt;tag&gt;", "é", "\n  ", "x<y", "1 > 0", "&nbsp;", "日本", "&#128512;", "&bogus;", "tab\there"}
 
 func genHtml(r *Rng, n int) string {
